@@ -32,9 +32,40 @@ func (e *Exec) mapKeyTerm(k types.Type, term string) string {
 	}
 	if !e.sc.funs["str.id"] {
 		e.sc.funs["str.id"] = true
-		e.strEqTerm("x", "y")
+		// str.id: canonical identity of a string's content (equal content <=> equal id);
+		// uninterpreted: two keys are the same map key iff their ids are equal
 		e.sc.emit("(declare-fun str.id (Str) Int)")
-		e.sc.emit("(assert (forall ((a Str) (b Str)) (! (= (= (str.id a) (str.id b)) (str.eq a b)) :pattern ((str.id a) (str.id b)))))")
+	}
+	// ground instances of "equal ids <=> equal strings" for every pair of key terms
+	if !strings.Contains(term, "q.") {
+		seen := false
+		for _, t := range e.sc.mapKeys {
+			if t == term {
+				seen = true
+				break
+			}
+		}
+		if !seen {
+			for _, t := range e.sc.mapKeys {
+				c1, ok1 := e.sc.strConsts[t]
+				c2, ok2 := e.sc.strConsts[term]
+				var same string
+				switch {
+				case ok1 && ok2 && c1 == c2:
+					same = "true"
+				case ok1 && ok2:
+					same = "false"
+				case ok1:
+					same = e.strEqConst(term, c1)
+				case ok2:
+					same = e.strEqConst(t, c2)
+				default:
+					same = e.strEqTerm(t, term)
+				}
+				e.sc.emit(fmt.Sprintf("(assert (= (= (str.id %s) (str.id %s)) %s))", t, term, same))
+			}
+			e.sc.mapKeys = append(e.sc.mapKeys, term)
+		}
 	}
 	return fmt.Sprintf("(str.id %s)", term)
 }
@@ -314,6 +345,7 @@ func (e *Exec) doCall(fn *ssa.Function, fc *FuncContract, st *State, cc *ssa.Cal
 	callee := cc.StaticCallee()
 	if callee != nil {
 		e.countCall(st, callee.Name())
+		e.beforeCall(st, callee.Name(), pos)
 	}
 	if callee == nil && fv.Fn != nil {
 		callee = fv.Fn
@@ -812,5 +844,41 @@ func (e *Exec) countCall(st *State, name string) {
 				e.ghostSet(st, name+"_calls", tInt, e.add(cur.S, e.sc.idxLit(1)))
 			}
 		}
+	}
+}
+
+// beforeCall: `before <callee>: <expr>` clauses are obligations at every call of
+// <callee> in the function under contract (then assumed).
+func (e *Exec) beforeCall(st *State, name string, pos token.Pos) {
+	if e.fc == nil || e.curFn != e.fn {
+		return
+	}
+	for i, cl := range e.fc.Lists["before"] {
+		j := strings.Index(cl.Expr, ":")
+		if j < 0 || strings.TrimSpace(cl.Expr[:j]) != name {
+			continue
+		}
+		c := e.specEnv(st, e.entry)
+		// local variables visible at the call site
+		if e.curInstr != nil && e.curInstr.Block() != nil {
+			dummy := &loopInfo{header: e.curInstr.Block(), body: map[*ssa.BasicBlock]bool{}}
+			for k, v := range e.loopVars(e.fn, dummy, st, e.curInstr.Block()) {
+				if _, isParam := c.vars[k]; !isParam {
+					c.vars[k] = v
+				}
+			}
+		}
+		c.where = fmt.Sprintf("%s:%d", cl.File, cl.Line)
+		t, err := c.evalBool(strings.TrimSpace(cl.Expr[j+1:]))
+		if err != nil {
+			e.note("CONTRACT-ERROR before: %v", err)
+			continue
+		}
+		saved := e.propsDef
+		if len(cl.Props) > 0 {
+			e.propsDef = cl.Props
+		}
+		e.check(st, "before", fmt.Sprintf("%s.%d", name, i), t, pos)
+		e.propsDef = saved
 	}
 }
